@@ -59,6 +59,12 @@ def main():
     kwds = {}
     if job.get('ignore'):
         kwds['ignore'] = tuple(job['ignore'])
+    if job.get('tol') is not None:
+        kwds['tol'], kwds['deep'] = job['tol'], bool(job.get('deep'))
+        if noise.get('rounded_first'):
+            r = klepto.inf_cache(keymap=M.make_keymap(job['keymap']), tol=job['tol'], deep=bool(job.get('deep')))(M.f3)
+            for x in noise['rounded_first']:
+                r(dec(x), (dec(x), 1.0))
     if job.get('algo') == 'lru':
         deco = mod.lru_cache(maxsize=1000, cache=cache, keymap=M.make_keymap(job['keymap']), **kwds)
     else:
